@@ -315,6 +315,189 @@ def impl_ft(c, chk, stage_items, stage_meta, full_items, full_meta):
     return True
 
 
+# ------------------------------------------------------------------ functions modified after construction
+APPLY = {"times_i": lambda v: v * 1j, "conj": lambda v: v.conjugate(), "neg": lambda v: -v, "square": lambda v: v * v,
+         "add_i": lambda v: v + 2j, "rotate": lambda v: v * (1 + 2j), "real": lambda v: complex(v.real, 0.0)}
+
+
+def gen_mut(r, k, atype=None, dtype=None, force=None):
+    atype = atype or r.choice(["upper-half", "upper-half", "complete"])
+    n = r.randint(2, 24)
+    dtype = dtype or r.choice(["real", "real", "int", "complex"])
+    if dtype == "complex":
+        data = [[r.randint(-6, 6), r.randint(-6, 6)] for _ in range(n)]
+    else:
+        data = [[r.randint(-6, 6), 0] for _ in range(n)]
+    ops = []
+    squared = False
+    for _ in range(r.choice([1, 1, 2, 3])):
+        u = r.random()
+        if force and not ops:
+            u = {"apply": 0.0, "assign": 0.5, "inplace": 0.7}[force]
+        if u < 0.45:
+            name = r.choice(["times_i", "conj", "neg", "add_i", "rotate", "real"] + ([] if squared else ["square"]))
+            squared = squared or name == "square"
+            ops.append(["apply", name])
+        elif u < 0.65:
+            cplx = r.random() < 0.7
+            ops.append(["assign", [[r.randint(-6, 6), r.randint(-6, 6) if cplx else 0] for _ in range(n)], cplx])
+        elif u < 0.85:
+            ops.append(["inplace", r.choice(["mul", "add"]), r.choice([2, -1, 3])])
+        else:
+            ops.append(["setitem", r.randrange(n), r.randint(-5, 5)])
+    window = None
+    which = r.choice([0, 0, 0, 2])
+    if which == 0 and r.random() < 0.35:
+        wc = r.random() < 0.6
+        window = [[r.randint(-3, 3), r.randint(-3, 3) if wc else 0] for _ in range(n)]
+    return {"kind": "mut", "chain": "M", "atype": atype, "length": n, "start": gen_start(r), "step": gen_step(r),
+            "cstart": r.choice([0.0, 0.7]), "dtype": dtype, "data": data, "ops": ops, "window": window, "which": which}
+
+
+def final_values(c):
+    """the values the function holds after the modifications, computed independently (exact: small Gaussian integers)"""
+    vals = [complex(a, b) for a, b in c["data"]]
+    for op in c["ops"]:
+        if op[0] == "apply":
+            vals = [APPLY[op[1]](v) for v in vals]
+        elif op[0] == "assign":
+            vals = [complex(a, b) for a, b in op[1]]
+        elif op[0] == "inplace":
+            vals = [v * op[2] if op[1] == "mul" else v + op[2] for v in vals]
+        elif op[0] == "setitem":
+            vals[op[1]] = complex(op[2], 0.0)
+    eff = list(vals)
+    if c.get("window"):
+        eff = [v * complex(a, b) for v, (a, b) in zip(vals, c["window"])]
+    return vals, eff
+
+
+def build_mut(c):
+    import numpy
+    import quantarhei as qr
+    ax = make_axis("time", c)
+    if c["dtype"] == "complex":
+        y = numpy.array([complex(a, b) for a, b in c["data"]])
+    elif c["dtype"] == "int":
+        y = numpy.array([int(a) for a, b in c["data"]], dtype=numpy.int64)
+    else:
+        y = numpy.array([float(a) for a, b in c["data"]])
+    f = qr.DFunction(ax, y)
+    for op in c["ops"]:
+        if op[0] == "apply":
+            name = op[1]
+            if name == "conj":
+                f.apply_to_data(numpy.conj)
+            elif name == "real":
+                f.apply_to_data(numpy.real)
+            elif name == "times_i":
+                f.apply_to_data(lambda d: d * 1j)
+            elif name == "neg":
+                f.apply_to_data(lambda d: -d)
+            elif name == "square":
+                f.apply_to_data(lambda d: d * d)
+            elif name == "add_i":
+                f.apply_to_data(lambda d: d + 2j)
+            elif name == "rotate":
+                f.apply_to_data(lambda d: d * (1 + 2j))
+        elif op[0] == "assign":
+            if op[2]:
+                f.data = numpy.array([complex(a, b) for a, b in op[1]])
+            else:
+                f.data = numpy.array([float(a) for a, b in op[1]])
+        elif op[0] == "inplace":
+            if op[1] == "mul":
+                f.data *= op[2]
+            else:
+                f.data += op[2]
+        elif op[0] == "setitem":
+            f.data[op[1]] = op[2]
+    win = None
+    if c.get("window"):
+        wv = c["window"]
+        if any(b != 0 for a, b in wv):
+            win = qr.DFunction(ax, numpy.array([complex(a, b) for a, b in wv]))
+        else:
+            win = qr.DFunction(ax, numpy.array([float(a) for a, b in wv]))
+    return ax, f, win
+
+
+class _Fn:
+    def __init__(self, axis, data):
+        self.axis = axis
+        self.data = data
+
+
+def impl_mut(c, chk, stage_items, stage_meta, full_items, full_meta):
+    import numpy
+    import quantarhei as qr
+    which = c["which"]
+    tag = "%s:%s:%s" % (c["atype"], c["dtype"], "window" if c.get("window") else "plain")
+    vals, eff = final_values(c)
+    vals = numpy.array(vals)
+    eff = numpy.array(eff)
+    ax, f, win = build_mut(c)
+    held = numpy.asarray(f.data, dtype=complex)
+    if held.shape != vals.shape or numpy.max(numpy.abs(held - vals)) != 0.0:
+        chk.violation("modified:values:" + tag, "after %r the function holds %r, expected %r" % (c["ops"], held.tolist()[:6], vals.tolist()[:6]),
+                      "monitor", c)
+        return False
+    with Recorder() as rec:
+        if which == 0:
+            g = f.get_Fourier_transform(window=win) if win is not None else f.get_Fourier_transform()
+        else:
+            g = f.get_inverse_Fourier_transform()
+    calls = rec.calls
+    msg = monitor_oracle(calls)
+    if msg:
+        chk.violation("oracle:" + msg[0], msg[1], "monitor", c)
+    gd = numpy.asarray(g.data, dtype=complex)
+    scale = max(1.0, float(numpy.max(numpy.abs(gd))) if len(gd) else 1.0)
+    hist = "a function built from %s values and modified by %s%s" % (c["dtype"], json.dumps([o[:2] for o in c["ops"]]),
+                                                                  " with a window" if win is not None else "")
+    # (1) a function constructed directly from the final values
+    ax2 = make_axis("time", c)
+    f2 = qr.DFunction(ax2, eff.copy())
+    g2 = f2.get_Fourier_transform() if which == 0 else f2.get_inverse_Fourier_transform()
+    g2d = numpy.asarray(g2.data, dtype=complex)
+    if gd.shape != g2d.shape or float(numpy.max(numpy.abs(gd - g2d))) > 1e-12 * scale:
+        err = float(numpy.max(numpy.abs(gd - g2d))) if gd.shape == g2d.shape else float("inf")
+        chk.violation("modified:vs_direct:%s:%s" % (STAGE_NAME[which], tag), "%s of %s differs by %g from the transform of a function constructed "
+                      "directly from the same final values (%d points, %s axis)" % (STAGE_NAME[which], hist, err, len(eff), c["atype"]), "monitor", c)
+    # (2) the direct Fourier sum on the returned axis
+    ref = direct_sum(which, c["atype"], _Fn(ax, eff), g)
+    if ref is not None:
+        rs = max(1.0, float(numpy.max(numpy.abs(ref))))
+        if gd.shape != ref.shape or float(numpy.max(numpy.abs(gd - ref))) > 1e-10 * rs:
+            err = float(numpy.max(numpy.abs(gd - ref))) if gd.shape == ref.shape else float("inf")
+            chk.violation("modified:fourier_sum:%s:%s" % (STAGE_NAME[which], tag), "%s of %s differs from the direct Fourier sum of its values on "
+                          "the returned axis by %g (%d points, %s axis)" % (STAGE_NAME[which], hist, err, len(eff), c["atype"]), "monitor", c)
+    # (3) transform, then inverse transform: the values
+    if which == 0:
+        back = g.get_inverse_Fourier_transform()
+        bd = numpy.asarray(back.data, dtype=complex)
+        es = max(1.0, float(numpy.max(numpy.abs(eff))))
+        if bd.shape != eff.shape or float(numpy.max(numpy.abs(bd - eff))) > 1e-10 * es:
+            err = float(numpy.max(numpy.abs(bd - eff))) if bd.shape == eff.shape else float("inf")
+            chk.violation("modified:roundtrip:" + tag, "transform and inverse transform of %s change the values by %g (%d points, %s axis)"
+                          % (hist, err, len(eff), c["atype"]), "monitor", c)
+    # (4) the model, exact tie on the Gaussian-integer values
+    upper = c["atype"] == "upper-half"
+    itp = 1.0 / (2.0 * numpy.pi)
+    step = float(ax.step)
+    tol = 1e-12 * (1.0 + (float(numpy.max(numpy.abs(gd))) if len(gd) else 0.0))
+    stage_items.append("(%d%%nat, %s, %s, %s, %s, %s, %s, %s, %s)" % (
+        which, "true" if upper else "false", cm.qlit(step), cm.qlit(itp), clist_g(eff),
+        table_lit(calls["fft"]), table_lit(calls["ifft"]), clist_g(gd), cm.qlit(tol)))
+    stage_meta.append((c, which))
+    Ltr = len(eff) * 2 if upper else len(eff)
+    if Ltr in (1, 2, 4):
+        full_items.append("(%d%%nat, %d%%nat, %s, %s, %s, %s, %s, %s)" % (
+            Ltr, which, "true" if upper else "false", cm.qlit(step), cm.qlit(itp), clist_g(eff), clist_g(gd), cm.qlit(tol)))
+        full_meta.append((c, which))
+    return True
+
+
 # ------------------------------------------------------------------ run
 def run(chk, cases):
     import numpy
@@ -343,6 +526,10 @@ def run(chk, cases):
                 ax_items[c["dir"]].append("(%s, %s, %s, %s)" % (cm.qlit(tp), axlit(t0), oaxlit(t1), oaxlit(t2)))
                 ax_meta[c["dir"]].append(c)
                 chk.case(c, c["length"] >= 2, sample={"case": c, "conjugate": t1, "back": t2} if c["length"] > 2 else None)
+            elif kind == "mut":
+                chk.count("mut:%s:%s:%s" % (c["atype"], c["dtype"], "+".join(sorted(set(o[0] for o in c["ops"])) + (["window"] if c.get("window") else []))))
+                ok = impl_mut(c, chk, stage_items, stage_meta, full_items, full_meta)
+                chk.case(c, ok, sample={"mut": c["ops"], "dtype": c["dtype"], "atype": c["atype"], "length": c["length"]})
             else:
                 tag = "%s:%s:%s" % (c["chain"], c["atype"], parity(c["length"]))
                 chk.count("ft:" + tag)
@@ -438,13 +625,28 @@ def corpus():
     return out
 
 
+def mut_corpus():
+    base = {"kind": "mut", "chain": "M", "atype": "upper-half", "length": 4, "start": 0.0, "step": 0.5, "cstart": 0.0, "dtype": "real",
+            "data": [[1, 0], [2, 0], [-1, 0], [3, 0]], "ops": [["apply", "times_i"]], "window": None, "which": 0}
+    out = [base]
+    out.append(dict(base, ops=[["assign", [[1, 2], [0, -1], [3, 1], [2, 2]], True]]))
+    out.append(dict(base, ops=[["inplace", "mul", 2]], window=[[1, 1], [0, 2], [1, 0], [2, -1]]))
+    out.append(dict(base, dtype="int", ops=[["apply", "rotate"], ["apply", "conj"]]))
+    out.append(dict(base, atype="complete", ops=[["apply", "add_i"]]))
+    out.append(dict(base, dtype="complex", data=[[1, 1], [2, -1], [0, 3], [1, 0]], ops=[["apply", "real"], ["apply", "times_i"]]))
+    out.append(dict(base, length=2, data=[[1, 0], [2, 0]], ops=[["apply", "times_i"]]))
+    return out
+
+
 def main():
     chk = cm.Check(PID, args.tier)
     chk.rule = ("axis cases: random start/step/conjugate start (dyadic and arbitrary floats, a few negative steps), lengths 1..60, both "
                 "types, both directions, incl. the refused ones (one-point complete axes, odd upper-half frequency axes); transform "
                 "cases: lengths 1..40 (all of them in the corpus sweep), both types, three chains (A: FT then inverse FT of a time "
                 "function, B: inverse FT then FT, C: the same starting on a frequency axis), Gaussian-integer data (general, real, "
-                "Hermitian-extendable, single spike). Non-trivial: length >= 2 (axes), data not identically zero (transforms); "
+                "Hermitian-extendable, single spike); functions modified after construction (built from real / integer / complex values, then "
+                "apply_to_data, data assignment, in-place arithmetic, element assignment, real or complex window) on upper-half and complete "
+                "axes, compared with the model, the direct Fourier sum and a function constructed directly from the final values. Non-trivial: length >= 2 (axes), data not identically zero (transforms); "
                 "distinct by canonical input")
     chk.assumptions = [
         "numpy.fft.fft / numpy.fft.ifft compute the defining sums (hypotheses fft_spec / ifft_spec of the theorems): monitored on "
@@ -471,6 +673,8 @@ def main():
                     continue
                 cases.append(gen_ft(r, 0, length=n, atype=a, chain="A"))
         cases += [gen_axis(r, k) for k in range(na)] + [gen_ft(r, k) for k in range(nf)]
+        r2 = cm.rng(PID + "/modified")
+        cases += mut_corpus() + [gen_mut(r2, k) for k in range(120 if args.tier == "quick" else 1200)]
     run(chk, cases)
     chk.finish()
 
